@@ -47,9 +47,14 @@ class Syn:
     def __init__(self, data):
         self.data = data
         self.fns = []
+        seen = set()
         for c, v in data.items():
             for f in v["fns"]:
                 f["crate"] = c
+                key = (c, f["path"], f["file"], f["l"])
+                if key in seen:
+                    continue  # a module file reached through two `mod` declarations
+                seen.add(key)
                 self.fns.append(f)
         self.adts = [dict(a, crate=c) for c, v in data.items() for a in v["adts"]]
         self.statics = [dict(a, crate=c) for c, v in data.items() for a in v["statics"]]
@@ -261,7 +266,7 @@ def show(n, depth=0, maxdepth=6):
     if k == "un":
         return f"{n['op']}{s(n['e'])}"
     if k == "ref":
-        return "&" + s(n["e"])
+        return ("&mut " if n.get("mut") else "&") + s(n["e"])
     if k == "try":
         return s(n["e"]) + "?"
     if k == "struct":
